@@ -108,6 +108,84 @@ pub fn gen_big(rng: &mut Rng) -> AG {
     AG { terms, rules }
 }
 
+/// "Lists" family: the shapes people write by hand in yacc style - nullable left-/right-recursive lists, lists with
+/// separators or terminators, optional parts - placed behind and in front of other non-terminals.
+pub fn gen_lists(rng: &mut Rng) -> AG {
+    let mut terms: Vec<Term> = vec![];
+    let t = |terms: &mut Vec<Term>| {
+        terms.push(lit_term(terms.len()));
+        Sym::T(terms.len() - 1)
+    };
+    let alt = |syms: Vec<Sym>| Alt { syms, meta: Meta::default() };
+    let mut rules: Vec<Rule> = vec![Rule { name: "S".into(), alts: vec![], meta: Meta::default() }];
+    // items: led by their own terminal
+    let nitems = rng.range(1, 3);
+    let mut items = vec![];
+    for k in 0..nitems {
+        let lead = t(&mut terms);
+        let mut alts = vec![alt(vec![lead])];
+        if rng.chance(0.5) && terms.len() < 12 {
+            let lead2 = t(&mut terms);
+            let tail = if rng.chance(0.5) && terms.len() < 12 { vec![lead2, t(&mut terms)] } else { vec![lead2] };
+            alts.push(alt(tail));
+        }
+        rules.push(Rule { name: format!("I{}", k), alts, meta: Meta::default() });
+        items.push(Sym::N(rules.len() - 1));
+    }
+    // lists / optionals over the items
+    let nlists = rng.range(1, 3);
+    let mut lists = vec![];
+    for k in 0..nlists {
+        let it = *rng.pick(&items);
+        let me = Sym::N(rules.len());
+        let alts = match rng.below(8) {
+            0 => vec![alt(vec![me, it]), alt(vec![])],
+            1 => vec![alt(vec![]), alt(vec![me, it])],
+            2 if terms.len() < 12 => vec![alt(vec![me, it, t(&mut terms)]), alt(vec![])],
+            3 => vec![alt(vec![it, me]), alt(vec![])],
+            4 if terms.len() < 12 => vec![alt(vec![me, t(&mut terms), it]), alt(vec![it])],
+            5 => vec![alt(vec![it]), alt(vec![me, it])],
+            6 => vec![alt(vec![it]), alt(vec![])],
+            _ => {
+                // list of a list / of an optional defined earlier
+                let inner = if lists.is_empty() { it } else { *rng.pick(&lists) };
+                if terms.len() < 12 {
+                    vec![alt(vec![me, t(&mut terms), inner]), alt(vec![])]
+                } else {
+                    vec![alt(vec![me, it]), alt(vec![])]
+                }
+            }
+        };
+        rules.push(Rule { name: format!("L{}", k), alts, meta: Meta::default() });
+        lists.push(me);
+    }
+    // sequences: lists behind and in front of non-terminals and terminals
+    let nalts = rng.range(1, 3);
+    for _ in 0..nalts {
+        let mut syms = vec![];
+        if rng.chance(0.7) && terms.len() < 13 {
+            syms.push(t(&mut terms));
+        }
+        for _ in 0..rng.range(1, 3) {
+            if rng.chance(0.5) {
+                syms.push(*rng.pick(&items));
+            }
+            syms.push(*rng.pick(&lists));
+            if rng.chance(0.4) && terms.len() < 13 {
+                syms.push(t(&mut terms));
+            }
+        }
+        if rng.chance(0.6) && terms.len() < 14 {
+            syms.push(t(&mut terms));
+        }
+        rules[0].alts.push(alt(syms));
+    }
+    if terms.is_empty() {
+        t(&mut terms);
+    }
+    AG { terms, rules }
+}
+
 /// "Context" family: a few shared non-terminals (unit chains down to a nullable or
 /// non-nullable leaf) used under several prefixes and followers. Finite languages whose
 /// LALR automata need look-aheads to travel through merges and several closure hops —
